@@ -30,6 +30,8 @@ pub trait Dom: num::Float + std::fmt::Debug + Send + 'static {
     fn input_unit(name: &str) -> Self { let x = Self::input(name); Self::assume(Cond::And(vec![Cond::Le(x, Self::one()), Cond::Le(-Self::one(), x)])); x }
     /// |x| <= bound, for x a linear form over `input_unit` variables (see Ctx::oblige_abs_le_boxed)
     fn oblige_abs_le_boxed(label: &str, x: Self, bound: f64) { Self::oblige(label, Cond::And(vec![Cond::Le(x, Self::c(bound)), Cond::Le(-Self::c(bound), x)])) }
+    /// top-level structure of the term the real code built: ('+'|'-'|'*'|'/', left, right); None natively
+    fn bin_parts(self) -> Option<(char, Self, Self)> { None }
     /// if the value is structurally `sqrt(rad)`, the radicand
     fn sqrt_part(self) -> Option<Self> { None }
     /// if the value is structurally `num / den`, its two parts
@@ -42,7 +44,8 @@ impl Dom for Sym {
         sym::with(|c| {
             c.n_inputs += 1;
             if c.mode == sym::Mode::Exact {
-                let v = c.exact_inputs.get(name).cloned().unwrap_or_else(|| BigRational::from_integer(0.into()));
+                // inputs the model does not mention are unconstrained by the query: 0, or 1 for inputs assumed positive ("pos…")
+                let v = c.exact_inputs.get(name).cloned().unwrap_or_else(|| BigRational::from_integer((if name.starts_with("pos") { 1 } else { 0 }).into()));
                 Sym(c.mk(sym::Node::Const(v)))
             } else { Sym(c.var(name)) }
         })
@@ -65,6 +68,9 @@ impl Dom for Sym {
     fn lemma_eq(a: Sym, b: Sym) -> Option<Cond<Sym>> { sym::with(|c| c.lemma_eq(a, b)) }
     fn oblige_alt(label: &str, alts: Vec<Cond<Sym>>) { sym::with(|c| c.oblige_alt(label, alts)) }
     fn oblige_abs_le_boxed(label: &str, x: Sym, bound: f64) { sym::with(|c| c.oblige_abs_le_boxed(label, x, sym::f64_rat(bound))) }
+    fn bin_parts(self) -> Option<(char, Sym, Sym)> {
+        match sym::node_of(self) { sym::Node::Add(a, b) => Some(('+', Sym(a), Sym(b))), sym::Node::Sub(a, b) => Some(('-', Sym(a), Sym(b))), sym::Node::Mul(a, b) => Some(('*', Sym(a), Sym(b))), sym::Node::Div(a, b) => Some(('/', Sym(a), Sym(b))), _ => None }
+    }
     fn sqrt_part(self) -> Option<Sym> { if let sym::Node::Sqrt(c) = sym::node_of(self) { Some(Sym(c)) } else { None } }
     fn ratio_parts(self) -> Option<(Sym, Sym)> { if let sym::Node::Div(a, b) = sym::node_of(self) { Some((Sym(a), Sym(b))) } else { None } }
 }
@@ -98,7 +104,7 @@ fn eval(c: &Cond<f64>, strict: bool) -> bool {
 }
 impl Dom for f64 {
     const SYMBOLIC: bool = false;
-    fn input(name: &str) -> f64 { NATIVE.with(|n| n.borrow().inputs.get(name).copied().unwrap_or(0.0)) }
+    fn input(name: &str) -> f64 { NATIVE.with(|n| n.borrow().inputs.get(name).copied().unwrap_or(if name.starts_with("pos") { 1.0 } else { 0.0 })) }
     fn assume(c: Cond<f64>) { if !eval(&c, false) { NATIVE.with(|n| n.borrow_mut().assumption_failed.push(format!("{:?}", c))); } }
     fn oblige(label: &str, c: Cond<f64>) {
         NATIVE.with(|n| n.borrow_mut().obligations += 1);
